@@ -23,6 +23,9 @@ pub enum Case {
     Synthetic { r: Scalar, s: Scalar, recid: u8, compressed: bool, force_last: Option<u8>, shrink_r: u8, shrink_s: u8 },
     /// malformed DER built from a valid one
     Malformed { r: Scalar, s: Scalar, kind: u8, extra: u8 },
+    /// an in-range (r, s) for which the recovered key does not exist: r = x(kG) mod n, s = z/k, so that sR = zG and
+    /// r^-1(sR - zG) is the point at infinity
+    NoSigner { k: Scalar, msg: Bytes, sha256d: bool, compressed: bool },
 }
 
 fn rs_of(sig: &Signature) -> (BigUint, BigUint) {
@@ -85,11 +88,11 @@ impl Property for C06 {
     const ID: &'static str = "C06";
 
     fn rule() -> String {
-        "Signatures produced by the deterministic and caller-nonce signers (keys/nonces from the boundary set, both compression forms, both hashes) and synthetic (r, s) pairs built through from_compact_bytes with integer lengths 1..33, the last byte of s forced to each of the fourteen sighash flag values, all four recovery ids x both compression markers; malformed DER built from valid DER (wrong outer/inner lengths, trailing bytes, r or s zero, r or s >= n, negative integers). Oracle: reference strict DER codec, compact layout [27+recid+4*compressed | r | s], reference secp256k1 recovery: DER, DER||flag for all fourteen flags, SighashSignature and compact forms must round-trip exactly; recovery from the compact form must return the signer's key in the recorded form and not for another message; malformed DER must be Err. Non-trivial = final DER byte equals a flag value, recid >= 2, uncompressed marker, a malformed class, or a recovery case; distinct by hash of the serialised case.".into()
+        "Signatures produced by the deterministic and caller-nonce signers (keys/nonces from the boundary set, both compression forms, both hashes) and synthetic (r, s) pairs built through from_compact_bytes with integer lengths 1..33, the last byte of s forced to each of the fourteen sighash flag values, all four recovery ids x both compression markers; malformed DER built from valid DER (wrong outer/inner lengths, trailing bytes, r or s zero, r or s >= n, negative integers). Oracle: reference strict DER codec, compact layout [27+recid+4*compressed | r | s], reference secp256k1 recovery: DER, DER||flag for all fourteen flags, SighashSignature and compact forms must round-trip exactly; recovery from the compact form must return the signer's key in the recorded form and not for another message; malformed DER must be Err, also in the DER+flag form (malformed DER before the flag, two trailing flags, a valid DER without any flag byte whatever its final byte); crafted in-range (r, s) whose recovered key is the point at infinity (r = x(kG), s = z/k) must give Err, not a panic. Non-trivial = final DER byte equals a flag value, recid >= 2, uncompressed marker, a malformed class, or a recovery case; distinct by hash of the serialised case.".into()
     }
 
     fn assumptions() -> Vec<String> {
-        vec!["non-minimal DER integer padding is not in the statement and is not asserted".into(), "recid >= 2 only occurs in synthetic signatures (r + n < p has probability 2^-128 for real ones)".into()]
+        vec!["non-minimal DER integer padding is not in the statement and is not asserted".into(), "recid >= 2 only occurs in synthetic signatures (r + n < p has probability 2^-128 for real ones); the signer there is the reference's recovered point".into()]
     }
 
     fn cases(tier: Tier) -> u64 {
@@ -121,6 +124,7 @@ impl Property for C06 {
             6 => (keys::scalar(), keys::scalar(), 0u8..4, any::<bool>(), prop::option::weighted(0.5, prop::sample::select(FLAG_BYTES.to_vec())), prop_oneof![3 => Just(0u8), 1 => 0u8..33], prop_oneof![3 => Just(0u8), 1 => 0u8..33])
                 .prop_map(|(r, s, recid, compressed, force_last, shrink_r, shrink_s)| Case::Synthetic { r, s, recid, compressed, force_last, shrink_r, shrink_s }),
             3 => (keys::scalar(), keys::scalar(), 0u8..12, any::<u8>()).prop_map(|(r, s, kind, extra)| Case::Malformed { r, s, kind, extra }),
+            1 => (keys::scalar(), msg(), any::<bool>(), any::<bool>()).prop_map(|(k, msg, sha256d, compressed)| Case::NoSigner { k, msg, sha256d, compressed }),
         ]
         .boxed()
     }
@@ -217,16 +221,14 @@ impl Property for C06 {
                 let z = secp::from_be(&digest);
                 let want = secp::recover(&z, &rv, &sv, *recid % 4);
                 let got = lib_call("recover_public_key_from_digest", || sig.recover_public_key_from_digest(&digest))?;
-                match (got, want) {
-                    (Ok(k), Some(q)) => ensure_eq_hex!(k.to_bytes().map_err(|e| failure("pub_to_bytes", e.to_string(), "Ok"))?, secp::encode_point(&q, *compressed), "synthetic_recovery"),
+                match (got, &want) {
+                    (Ok(k), Some(q)) => ensure_eq_hex!(k.to_bytes().map_err(|e| failure("pub_to_bytes", e.to_string(), "Ok"))?, secp::encode_point(q, *compressed), "synthetic_recovery"),
                     (Err(_), None) => {}
                     (Ok(k), None) => return Err(failure("synthetic_recovery", format!("Ok({:?})", k.to_hex()), "Err: no point for this r / recovery id")),
-                    // recovery ids 2 and 3 (r + n as x coordinate) never occur for real signatures (probability 2^-128);
-                    // refusing them is not a violation of the statement, which is about the signer of a produced signature
-                    (Err(_), Some(_)) if *recid % 4 >= 2 => o.label("recid>=2-recovery-refused"),
-                    (Err(e), Some(q)) => return Err(failure("synthetic_recovery", format!("Err({})", e), hex::encode(secp::encode_point(&q, *compressed)))),
+                    (Err(e), Some(q)) => return Err(failure("synthetic_recovery", format!("Err({}) for compact {}", e, hex::encode(&compact)), hex::encode(secp::encode_point(q, *compressed)))),
                 }
                 o.nt_if(*recid % 4 >= 2, "recid>=2");
+                o.label_if(*recid % 4 >= 2 && want.is_some(), "recid>=2-with-a-point-at-r+n");
                 o.nt_if(!*compressed, "uncompressed-marker");
                 o.label_if(*shrink_r > 0 || *shrink_s > 0, "short-integers");
                 o.label("synthetic");
@@ -296,7 +298,56 @@ impl Property for C06 {
                 }
                 let res2 = lib_call("from_hex_der(malformed)", || Signature::from_hex_der(&hex::encode(&bad)))?;
                 ensure!(res2.is_err(), "malformed_der_hex_rejected", "Ok", "Err");
+                // the DER+flag form is <DER><one flag byte>: malformed DER before the flag, and a valid DER with no flag byte
+                // at all (whatever its own final byte is), are refused
+                let mut flagless = good.clone();
+                if extra % 2 == 0 {
+                    // final DER byte forced to a flag value
+                    let sv2 = ((&sv >> 8usize) << 8usize) + BigUint::from(FLAG_BYTES[(*extra as usize / 2) % 14]);
+                    if !sv2.is_zero() && sv2 < n {
+                        flagless = codec::der_encode_sig(&rv, &sv2);
+                    }
+                }
+                let mut bad_flagged = bad.clone();
+                bad_flagged.push(FLAG_BYTES[(*extra as usize) % 14]);
+                for (what, cand) in [("malformed DER followed by a flag", &bad_flagged), ("malformed DER", &bad), ("valid DER without a flag byte", &flagless)] {
+                    if let Ok(p) = lib_call("SighashSignature::from_bytes(malformed)", || SighashSignature::from_bytes(cand, &[9]))? {
+                        return Err(failure("malformed_der_flag_form_rejected", format!("Ok (re-serialises as {}) for {}: {}", p.to_bytes().map(hex::encode).unwrap_or_default(), what, hex::encode(cand)), "Err: not <DER signature><one flag byte>"));
+                    }
+                }
+                o.label_if(FLAG_BYTES.contains(flagless.last().unwrap()), "flagless-der-ending-in-a-flag-value");
                 o.nt("malformed-der");
+            }
+            Case::NoSigner { k, msg, sha256d, compressed } => {
+                let n = secp::n();
+                let m = msg.to_vec();
+                let algo = if *sha256d { SigningHash::Sha256d } else { SigningHash::Sha256 };
+                let digest = if *sha256d { hashes::sha256d(&m) } else { hashes::sha256(&m) };
+                let z = secp::from_be(&digest) % &n;
+                let kv = k.value();
+                let big_r = secp::pubkey(&kv);
+                let (rx, ry_odd) = match &big_r {
+                    secp::Point::Affine { x, y } => (x.clone(), y.bit(0)),
+                    _ => return Ok(o),
+                };
+                let rv = &rx % &n;
+                let sv = (&z * secp::mod_inv(&kv, &n)) % &n;
+                if rv.is_zero() || sv.is_zero() || rx >= n {
+                    o.label("degenerate");
+                    return Ok(o);
+                }
+                let recid = ry_odd as u8;
+                ensure!(secp::recover(&z, &rv, &sv, recid).is_none(), "harness_self_check", "the reference recovers a key", "the point at infinity");
+                let mut compact = vec![compact_header(recid, *compressed)];
+                compact.extend_from_slice(&secp::be32(&rv));
+                compact.extend_from_slice(&secp::be32(&sv));
+                let sig = lib_call("from_compact_bytes", || Signature::from_compact_bytes(&compact))?.map_err(|e| failure("from_compact_bytes", format!("Err({}) for {}", e, hex::encode(&compact)), "Ok: r and s in range"))?;
+                ensure_eq_hex!(lib_call("to_compact_bytes", || sig.to_compact_bytes(None))?, compact, "compact_roundtrip");
+                let a = lib_call("recover_public_key (no signer exists)", || sig.recover_public_key(&m, algo))?;
+                ensure!(a.is_err(), "recovery_without_a_signer_fails", format!("Ok({:?})", a.as_ref().ok().and_then(|k| k.to_hex().ok())), "Err: the recovered point is the point at infinity");
+                let b = lib_call("recover_public_key_from_digest (no signer exists)", || sig.recover_public_key_from_digest(&digest))?;
+                ensure!(b.is_err(), "recovery_without_a_signer_fails", "Ok", "Err");
+                o.nt("no-signer");
             }
         }
         Ok(o)
